@@ -1669,6 +1669,7 @@ type job struct {
 }
 
 func TestCheck(t *testing.T) {
+	vk.UseT(t)
 	r := vk.Start("C10", "model_checking", 110*time.Second, 24*time.Minute)
 	debug.SetMaxStack(128 << 20) // a runaway recursion in the subject should die quickly
 	u := universe()
